@@ -382,6 +382,11 @@ void Interpret::interp(ASTNode& n) {
         }
     } catch (ApiException const &e) {
         notify_formatted(true, e.what());
+    } catch (std::exception const & e) {
+        // Not an error of the input as such (internal error, unsupported combination): the state of the solver is not
+        // known to be consistent any more, so report and stop instead of terminating the process abnormally
+        notify_formatted(true, "internal error: %s", e.what());
+        f_exit = true;
     }
 }
 
